@@ -609,7 +609,7 @@ def law_cases(prop, tier, rnd, U):
                 key = rnd.choice(keys)
                 add("ip_cipher", f"encrypt_ip/decrypt_ip({mode})",
                     {"orig": "ip_pton!(.x)", "enc": f'encrypt_ip!(.x, .key, "{mode}")', "back": f'ip_pton!(decrypt_ip!(encrypt_ip!(.x, .key, "{mode}"), .key, "{mode}"))'},
-                    {"x": lstr(ip), "key": lbytes(key), "documented": True, "shape": "v6" if ":" in ip else "v4"})
+                    {"x": lstr(ip), "key": lbytes(key), "documented": True, "shape": ("v4-mapped-v6" if ipaddress.ip_address(ip).version == 6 and ipaddress.IPv6Address(ip).ipv4_mapped is not None else "v6") if ":" in ip else "v4"})
     elif prop == "C21":
         JA = U["JSON_ALPHABET"]
         import struct
@@ -653,11 +653,146 @@ def law_cases(prop, tier, rnd, U):
             return lobj({rnd.choice(strs[:400]): tree(d - 1) for _ in range(rnd.randint(0, 3))})
         for _ in range(600 if tier == "quick" else 10000):
             jadd(tree(3), "nested")
-        for d in (20, 60, 100):
+        for d in (10, 25):
             x = lint(1)
             for _ in range(d):
                 x = larr([x])
             jadd(x, f"deep-array-{d}")
+    elif prop == "C35":
+        import struct
+        CU, _, _ = universes("GenCalendar.tla", os.path.join(WORK, f"{prop}_{tier}" + ("_alt" if os.environ.get("VERIF_REPO", "/repo") != "/repo" else "")),
+                             ["DATES", "TIMES", "OFFSETS", "FRACS", "FIXEDZONES", "DSTZONES"])
+        fixed = CU["FIXEDZONES"]
+        all_tz = sorted(fixed) + CU["DSTZONES"]
+        def conv(name, text, tzs, inp):
+            inp = dict(inp)
+            inp["text"] = text
+            inp["name"] = name
+            cases.append({"worker": "conv", "f": "Conversion", "args": [], "ret": [], "src": f"conv:{name}", "law": {"name": "conv", "fn": "Conversion"},
+                          "inp": inp, "name": name, "text": plain(text), "tzs": tzs})
+        some_tz = ["UTC", "America/New_York", "Etc/GMT-14"]
+        edge = [0, 1, -1, 7, 10, -10, 2**31, -2**31, 2**53 + 1, 2**63 - 1, -2**63, 10**18, -10**18 + 1]
+        for n in edge + [rnd.getrandbits(64) - 2**63 for _ in range(150 if tier == "quick" else 5000)] + [rnd.randint(-10**6, 10**6) for _ in range(50)]:
+            for name in ("int", "integer"):
+                conv(name, lstr(str(n)), some_tz, {"kind": "int", "x": lint(n), "shape": "integer"})
+        words = {"true": ["true", "t", "yes", "y"], "false": ["false", "f", "no", "n"]}
+        def casings(w):
+            return {w, w.upper(), w.capitalize(), "".join(ch.upper() if k % 2 else ch for k, ch in enumerate(w))}
+        for exp, ws in words.items():
+            for w in ws:
+                for form in sorted(casings(w)):
+                    for name in ("bool", "boolean"):
+                        conv(name, lstr(form), some_tz, {"kind": "bool", "expect": exp, "numeric": False, "shape": "boolean-word"})
+        for t, exp in (("0", "false"), ("1", "true"), ("-1", "true"), ("42", "true"), ("00", "false"), ("-0", "false"), ("9223372036854775807", "true")):
+            for name in ("bool", "boolean"):
+                conv(name, lstr(t), some_tz, {"kind": "bool", "expect": exp, "numeric": True, "shape": "boolean-number"})
+        def lfloat(f):
+            bits = struct.unpack(">Q", struct.pack(">d", f))[0]
+            return {"t": "float", "b": [(bits >> 48) & 0xffff, (bits >> 32) & 0xffff, (bits >> 16) & 0xffff, bits & 0xffff]}
+        floats = [0.0, -0.0, 1.0, -1.5, 0.1, 1e22, 1e23, 5e-324, 2.2250738585072014e-308, 1.7976931348623157e308, 9007199254740993.0, 123456.789, 1e-7, 3.141592653589793]
+        while len(floats) < (300 if tier == "quick" else 20000):
+            bits = rnd.getrandbits(64)
+            if (bits >> 52) & 0x7ff != 0x7ff:
+                floats.append(struct.unpack(">d", struct.pack(">Q", bits))[0])
+        for f in floats:
+            conv("float", lstr(repr(f)), some_tz, {"kind": "float", "x": lfloat(f), "shape": "float"})
+        for t in ["", "a", "é😀", " x ", "1", "true"]:
+            for name in ("asis", "bytes", "string"):
+                conv(name, lstr(t), some_tz, {"kind": "bytes", "shape": "bytes"})
+        for name in ("integers", "Int", "", "timestamp|", "number", "str"):
+            if name != "timestamp|":
+                conv(name, lstr("1"), ["UTC"], {"kind": "unknown", "shape": "unknown-name"})
+        # timestamps: text rendered here AND by Calendar!Render (the law compares them), instant computed by Calendar!ToUtc
+        MON = ["Jan", "Feb", "Mar", "Apr", "May", "Jun", "Jul", "Aug", "Sep", "Oct", "Nov", "Dec"]
+        def off_colon(o):
+            return ("-" if o < 0 else "+") + f"{abs(o) // 60:02d}:{abs(o) % 60:02d}"
+        def off_plain(o):
+            return ("-" if o < 0 else "+") + f"{abs(o) // 60:02d}{abs(o) % 60:02d}"
+        def render(fmt, c, off, fr):
+            d = f"{c['y']:04d}-{c['mo']:02d}-{c['d']:02d}"
+            t = f"{c['h']:02d}:{c['mi']:02d}:{c['s']:02d}"
+            frs = ("." + "".join(str(x) for x in fr)) if fr else ""
+            return {"rfc3339": f"{d}T{t}{frs}{off_colon(off)}", "rfc3339z": f"{d}T{t}{frs}Z", "iso_colon": f"{d}T{t}{off_colon(off)}", "space_z": f"{d} {t} {off_plain(off)}",
+                    "clf": f"{c['d']:02d}/{MON[c['mo'] - 1]}/{c['y']:04d}:{t} {off_plain(off)}", "naive": f"{d} {t}", "naive_t": f"{d}T{t}"}[fmt]
+        NAMES = {"rfc3339": ["timestamp", "timestamp|%+"], "rfc3339z": ["timestamp", "timestamp|%+"], "iso_colon": ["timestamp|%Y-%m-%dT%H:%M:%S%:z", "timestamp"],
+                 "space_z": ["timestamp|%Y-%m-%d %H:%M:%S %z"], "clf": ["timestamp|%d/%b/%Y:%T %z", "timestamp"],
+                 "naive": ["timestamp|%Y-%m-%d %H:%M:%S", "timestamp", "timestamp|%F %T"], "naive_t": ["timestamp|%FT%T", "timestamp"]}
+        ts_cases = []
+        for (y, mo, d) in CU["DATES"]:
+            for (h, mi, sec) in CU["TIMES"]:
+                c = {"y": y, "mo": mo, "d": d, "h": h, "mi": mi, "s": sec}
+                for fmt, names in NAMES.items():
+                    zoned = fmt not in ("naive", "naive_t")
+                    offs = [0] if fmt == "rfc3339z" or not zoned else CU["OFFSETS"]
+                    frs = CU["FRACS"] if fmt in ("rfc3339", "rfc3339z") else [[]]
+                    for off in offs:
+                        for fr in frs:
+                            for name in names:
+                                ts_cases.append((name, fmt, c, off, fr, zoned))
+        if tier == "quick":
+            ts_cases = rnd.sample(ts_cases, 2500)
+        for name, fmt, c, off, fr, zoned in ts_cases:
+            text = render(fmt, c, off, fr)
+            conv(name, lstr(text), all_tz if zoned else sorted(fixed), {"kind": "ts", "fmt": fmt, "c": c, "off": off, "fr": fr, "zoned": zoned, "zones": fixed,
+                 "shape": ("zoned:" if zoned else "naive:") + fmt + (":auto" if name == "timestamp" else "")})
+    elif prop == "C29":
+        import struct, math
+        def lfloat(f):
+            bits = struct.unpack(">Q", struct.pack(">d", f))[0]
+            return {"t": "float", "b": [(bits >> 48) & 0xffff, (bits >> 32) & 0xffff, (bits >> 16) & 0xffff, bits & 0xffff]}
+        def rdouble(maxexp=1023, minexp=-1022):
+            while True:
+                bits = rnd.getrandbits(64)
+                e = ((bits >> 52) & 0x7ff) - 1023
+                if minexp <= e <= maxexp:
+                    return struct.unpack(">d", struct.pack(">Q", bits))[0]
+        def num(kind, fn, exprs, inp, shape):
+            inp = dict(inp, kind=kind, shape=shape)
+            add("numeric", fn, exprs, inp)
+        N = 1 if tier == "quick" else 12
+        edge = [0, 1, -1, 2, -2, 7, -7, 10, 100, 2**31, -2**31, 2**53, 2**53 + 1, -2**53 - 1, 2**63 - 1, -2**63, -2**63 + 1, 10**18]
+        ints = edge + [rnd.getrandbits(64) - 2**63 for _ in range(100 * N)] + [rnd.randint(-1000, 1000) for _ in range(60 * N)]
+        fedge = [0.0, -0.0, 0.5, -0.5, 1.5, 2.5, -2.5, 0.1, 0.7, 1e15 + 0.5, 4503599627370495.5, 4503599627370496.0, 9007199254740992.0, 1e300, -1e300, 5e-324, 2.2250738585072014e-308,
+                 1.7976931348623157e308, -1.7976931348623157e308, 0.49999999999999994, 0.9999999999999999, -0.9999999999999999]
+        for n in ints:
+            num("abs_int", "abs", {"out": "abs!(.x)"}, {"x": lint(n)}, "integer" if n != -2**63 else "minimum-integer")
+            for p in (0, 1, 3, -2):
+                num("round_int", "round/ceil/floor", {"round": f"round!(.x, precision: {p})", "ceil": f"ceil!(.x, precision: {p})", "floor": f"floor!(.x, precision: {p})"},
+                    {"x": lint(n), "p": p}, "integer")
+        floats = fedge + [rdouble() for _ in range(150 * N)] + [rdouble(60, -30) for _ in range(300 * N)] + [rnd.randint(-10**7, 10**7) / 10 ** rnd.randint(0, 7) for _ in range(300 * N)]
+        for f in floats:
+            num("abs_float", "abs", {"out": "abs!(.x)"}, {"x": lfloat(f)}, "float")
+            num("round_f0", "round/ceil/floor", {"round": "round!(.x)", "ceil": "ceil!(.x)", "floor": "floor!(.x)", "width": "ceil!(.x) - floor!(.x)",
+                                                 "near": "abs(round!(.x) - float!(.x)) <= 0.5"}, {"x": lfloat(f)},
+                "precision-0" + (":beyond-2^52" if abs(f) >= 2.0**52 else ""))
+            for p in ((1, 2, 3, 6) if tier == "quick" else (1, 2, 3, 4, 5, 6, 9, 12)):
+                scaled = abs(f) * 10.0**p
+                shape = "overflowing-scale" if math.isinf(scaled) else "inexact-scale" if scaled >= 2.0**53 else "plain"
+                num("round_fp", "round/ceil/floor", {"round": f"round!(.x, precision: {p})", "ceil": f"ceil!(.x, precision: {p})", "floor": f"floor!(.x, precision: {p})",
+                        "tol_ceil": f"abs(ceil!(.x, precision: {p}) - float!(.x)) <= float!(.tol)", "tol_floor": f"abs(floor!(.x, precision: {p}) - float!(.x)) <= float!(.tol)",
+                        "tol_round": f"abs(round!(.x, precision: {p}) - float!(.x)) <= float!(.tol)",
+                        "tol2_ceil": f"abs(ceil!(.x, precision: {p}) - float!(.x)) <= float!(.tol2)", "tol2_floor": f"abs(floor!(.x, precision: {p}) - float!(.x)) <= float!(.tol2)",
+                        "tol2_round": f"abs(round!(.x, precision: {p}) - float!(.x)) <= float!(.tol2)"},
+                    {"x": lfloat(f), "p": p, "tol": lfloat(10.0**-p), "tol2": lfloat(10.0**-p * (1 + 1e-9) + 4 * math.ulp(f))},
+                    f"precision>0:{shape}")
+        divisors = [1, -1, 2, -2, 3, -3, 7, 10, -10, 2**31, 2**63 - 1, -2**63] + [rnd.randint(-50, 50) or 1 for _ in range(10 * N)] + [rnd.getrandbits(64) - 2**63 or 1 for _ in range(10 * N)]
+        for a in rnd.sample(ints, min(len(ints), 60 * N)):
+            for b in divisors:
+                q = abs(a) // abs(b) * (1 if (a >= 0) == (b >= 0) else -1)
+                num("mod_int", "mod", {"out": "mod!(.a, .b)"}, {"a": lint(a), "b": lint(b), "q": lint(q)},
+                    "integer" + (":minimum-by-minus-one" if a == -2**63 and b == -1 else ""))
+        fdiv = [1.0, -1.0, 0.5, 3.0, -3.0, 0.1, 1e300, 5e-324, 2.5] + [rdouble(40, -40) for _ in range(10 * N)]
+        for a in rnd.sample(floats, min(len(floats), 60 * N)):
+            for b in fdiv:
+                num("mod_float", "mod", {"out": "mod!(.a, .b)"}, {"a": lfloat(a), "b": lfloat(b)}, "float")
+        for n in ints:
+            num("conv_int", "to_string/parse_int/to_int/to_float", {"str": "to_string!(.x)", "parse": "parse_int!(to_string!(.x))", "toint": "to_int!(to_string!(.x))",
+                    "tofloat": "to_float!(.x)", "tofloat_str": "to_float!(to_string!(.x))", "back": "to_int!(to_float!(.x))"}, {"x": lint(n), "exact": abs(n) <= 2**53}, "integer")
+        for f in floats:
+            integral = f == math.floor(f) and abs(f) < 2.0**63
+            num("conv_float", "to_string/parse_float/to_float/to_int", {"str": "to_string!(.x)", "parse": "parse_float!(to_string!(.x))", "tofloat": "to_float!(to_string!(.x))",
+                    "toint": "to_int!(.x)", "back": "to_float!(to_int!(.x))", "toint_str": "to_int!(.x)"}, {"x": lfloat(f), "integral": integral},
+                "float" + (":integral" if integral else ""))
     return cases
 
 
@@ -695,7 +830,7 @@ def check_laws(prop, tier, seed):
                 "newline): all strings up to length 2 (thorough 3) plus seeded longer ones, small arrays/objects with duplicates/empties, edge and "
                 "random i64 values x bases, addresses, nested objects, instants. every instance is one evaluation of the law's expressions by the "
                 "real functions; all count as non-trivial",
-        "samples": [{"law": c["law"], "inp": c["inp"], "exprs": c["exprs"]} for c in cases[:3]],
+        "samples": [{"law": c["law"], "inp": c["inp"], "exprs": c.get("exprs", c.get("name"))} for c in cases[:3]],
         "states": gst + agg["states"], "transitions": gtr + agg["transitions"], "traces_validated_against_impl": cnt.get("laws", 0),
         "instances_per_law": by_law,
         "witnesses_for_other_properties": sorted({sig_of(v) for v in agg["viols"] if v["prop"] != prop}),
